@@ -54,7 +54,7 @@ Ops(id) ==
 Interesting(op) ==
   \/ nid % 4 = 3
   \/ /\ ~Unroutable(op)
-     /\ IF op.typ = "DELETE" THEN HasE(rib, op.ni, Tab(op), Key(op))
+     /\ IF op.typ = "DELETE" \/ op.bad # "" THEN HasE(rib, op.ni, Tab(op), Key(op))
         ELSE Outcome(op) \in {"installed", "held"}
 
 MCInit ==
